@@ -225,6 +225,9 @@ func MX() []*descriptorpb.FileDescriptorProto {
 	enums.OneofField("oe", "od", 5, E(dense))
 
 	anys := f.Msg("Anys") // several Any values in one message, early in the draw order
+	hinted := anys.Field("hinted", 4, M(anyT)) // declared first: drawn first
+	hinted.Options = &descriptorpb.FieldOptions{}
+	proto.SetExtension(hinted.Options, cosmos_proto.E_AcceptsInterface, "verif.Iface")
 	anys.Rep("items", 1, M(anyT))
 	anys.Map("by_id", 2, Int32, M(anyT))
 	anys.Field("one", 3, M(anyT))
